@@ -31,10 +31,13 @@ CLASS_NAMES = ["A", "A1", "B", "C", "D", "E", "F"]
 # argument pool, chosen to collide: -1/-2 (equal hashes, unequal values),
 # 1 / 1.0 / True (equal values), tuples built afresh on every use, strings
 ARG_POOL = [-1, -2, 0, 1, 1.0, True, "a", "b", ["t", 1], ["t", 2], [], None, 2**61 - 1, 0.5, False, 0.0]
-KW_NAMES = ["x", "y", "z", "key", "hashfunc", "instance", "name"]
+KW_NAMES = ["x", "y", "z", "key", "hashfunc", "instance", "name", "obj"]
 
 
 def decode_arg(a):
+    if isinstance(a, dict) and "dict" in a:
+        # a dictionary as a keyword VALUE, built in the order given
+        return {k: decode_arg(v) for k, v in a["dict"]}
     if isinstance(a, dict) and "unhashable" in a:
         # a legal Python value that cannot be part of a key: the call must
         # fail before anything is constructed or registered
@@ -201,6 +204,7 @@ class C17(engine.Property):
         "arguments-shaped-like-another-call's-key",
         "no-reference-held-construct-live-key",
         "keyword-value-equal-but-other-type",
+        "dict-valued-keyword-in-other-insertion-order",
     ]
 
     def make_config(self, rng):
@@ -250,6 +254,18 @@ class C17(engine.Property):
             text = json.dumps({k: decode_arg(v) for k, v in kw}, sort_keys=True)
             st.stats["probe:arguments-shaped-like-another-call's-key"] += 1
             return [list(a), text], []
+        with_dict = [x for x in with_kw if any(isinstance(v, dict) and "dict" in v for _, v in x[1])]
+        if with_dict and rng.random() < 0.5:
+            # the same call with a dictionary-valued keyword filled in another order
+            a, kw = rng.choice(with_dict)
+            kw = [list(x) for x in kw]
+            for item in kw:
+                if isinstance(item[1], dict) and "dict" in item[1]:
+                    entries = [list(e) for e in item[1]["dict"]]
+                    rng.shuffle(entries)
+                    item[1] = {"dict": entries}
+            st.stats["probe:dict-valued-keyword-in-other-insertion-order"] += 1
+            return list(a), kw
         if with_kw and rng.random() < 0.12:
             # the same call with one keyword value swapped for an EQUAL value of
             # another type (1 / True / 1.0, 0 / False / 0.0 / -0.0): equal, but
@@ -283,6 +299,9 @@ class C17(engine.Property):
         if rng.random() < cfg["p_kwargs"]:
             names = rng.sample(KW_NAMES, rng.randint(1, 3))
             kwargs = [[nm, ARG_POOL[rng.choice(cfg["pool"])]] for nm in names]
+            if cls not in ("D", "E") and rng.random() < 0.2:
+                entries = [[k, rng.choice([1, 2, "v"])] for k in rng.sample(["CC", "LD", "AR", "x"], rng.randint(2, 3))]
+                kwargs[0][1] = {"dict": entries}
         return args, kwargs
 
     def _during(self, rng, cfg, st, outer):
@@ -314,6 +333,7 @@ class C17(engine.Property):
             if kind == "add_mapping" and st.inst and st.hold:
                 obj = rng.choice(sorted(st.inst))
                 args, kwargs = self._args(rng, cfg, st, st.inst_cls[obj])
+                kwargs = [kv for kv in kwargs if kv[0] != "obj"]  # add_mapping(obj, ...) owns that name
                 return {"op": "add_mapping", "obj": obj, "args": args, "kwargs": kwargs}
             if kind in ("get_all", "clear"):
                 return {"op": kind, "cls": cls}
